@@ -56,6 +56,8 @@ type xdsResourceManager struct {
 type notifier struct {
 	ch  chan struct{}
 	err error
+	// waiters counts the lookups attached to this notifier (guarded by xdsResourceManager.mu)
+	waiters int
 }
 
 func (n *notifier) notify(err error) {
@@ -169,6 +171,7 @@ func (m *xdsResourceManager) Get(ctx context.Context, rType xdsresource.Resource
 		// only send one request for this resource
 		m.client.Watch(rType, rName, false)
 	}
+	nf.waiters++
 	m.mu.Unlock()
 	// Set fetch timeout
 	ctx, cancel := context.WithTimeout(ctx, m.opts.XDSSvrConfig.GetFetchXDSTimeout())
@@ -187,9 +190,14 @@ func (m *xdsResourceManager) Get(ctx context.Context, rType xdsresource.Resource
 		return res, nil
 	case <-ctx.Done():
 		verifYield(ctx, 4, rType, rName)
-		// remove the notifier if timeout.
+		// detach from the notifier if timeout; the entry goes with its last waiter.
 		m.mu.Lock()
-		delete(m.notifierMap[rType], rName)
+		if cur, ok := m.notifierMap[rType][rName]; ok && cur == nf {
+			nf.waiters--
+			if nf.waiters == 0 {
+				delete(m.notifierMap[rType], rName)
+			}
+		}
 		m.mu.Unlock()
 		return nil, fmt.Errorf("[XDS] manager, fetch %s resource[%s] timeout",
 			xdsresource.ResourceTypeToName[rType], rName)
